@@ -1,4 +1,4 @@
 SPECIFICATION SSpec
-CONSTANT Counts <- C222
+CONSTANT CountsSet <- Quick
 CONSTRAINT Emit
 CHECK_DEADLOCK FALSE
